@@ -819,13 +819,15 @@ func (tree *MutableTree) SaveVersion() ([]byte, int64, error) {
 }
 
 func (tree *MutableTree) saveFastNodeVersion(latestVersion int64) error {
+	// The label goes first: if the batch is flushed early and the process stops before the commit
+	// is complete, the label then differs from the latest version and the index is rebuilt.
+	if err := tree.ndb.SetFastStorageVersionToBatch(latestVersion); err != nil {
+		return err
+	}
 	if err := tree.saveFastNodeAdditions(); err != nil {
 		return err
 	}
-	if err := tree.saveFastNodeRemovals(); err != nil {
-		return err
-	}
-	return tree.ndb.SetFastStorageVersionToBatch(latestVersion)
+	return tree.saveFastNodeRemovals()
 }
 
 func (tree *MutableTree) getUnsavedFastNodeAdditions() map[string]*fastnode.Node {
